@@ -240,6 +240,26 @@ Section Crash.
       exists F, K. split; [exact Hx|]. cbn beta in Hp. unfold cover, inb in Hp. cbn [fst snd] in Hp. lia.
   Qed.
 
+  (* conversely: `touched` is exact - every managed frame touched by an in-flight call is allocated in the
+     crashed metadata (hence after recovery): the definition contains no frame that recovery could free *)
+  Lemma touched_alloc s f : Inv g s -> f < ms_frames s -> touched g s f -> alloc_at g (lower_of s) f = true.
+  Proof.
+    intros I Hfr (x & Hx & T).
+    destruct (frame_decomp f) as (r & i & E & Hr & Hi). pose proof (lt_nbf g _ _ Hfr) as Hh.
+    rewrite E, (alloc_at_bit s _ r i I Hh Hr Hi), <- E.
+    pose proof (I_A g s I _ r i Hh Hr Hi) as A. rewrite <- E in A.
+    destruct (fidx_divmod (f / HF) r i Hr Hi) as (_ & Em & Ed & _). rewrite <- E in Em.
+    assert (Hpos : 1 <= sumf (fr g (f / HF) r i) (ms_pool s) + sumf (tr g (f / HF) r) (ms_pool s)).
+    { unfold touches in T. cbv zeta in T. rewrite Em, Ed in T. apply orb_true_iff in T. destruct T as [T|T].
+      - pose proof (sumf_ge_in (fr g (f / HF) r i) _ _ Hx) as G. unfold fr at 1 in G. cbv zeta in G.
+        rewrite <- E, T in G. cbn [b2n] in G. lia.
+      - pose proof (sumf_ge_in (tr g (f / HF) r) _ _ Hx) as G. unfold tr at 1 in G. cbv zeta in G.
+        rewrite T in G. cbn [b2n] in G. lia. }
+    destruct (N.ltb_spec f (ms_frames s)); [|lia]. cbn [andb]. unfold isMark in A.
+    destruct (entv s (f / HF) =? MARK); [reflexivity|]. cbn [orb b2n] in *.
+    destruct (bit s (f / HF) r i); [reflexivity|cbn [b2n] in A; lia].
+  Qed.
+
   (* ---------- the crash theorem over the invariant ---------- *)
   Theorem crash_safe_inv s : Inv g s ->
     let m := lower_recover g (lower_of s) in
@@ -276,6 +296,16 @@ Section Crash.
   Proof.
     intros I H. pose proof (inv_lower_pre s I) as Pre.
     rewrite (abs_alloc_testbit g wf _ (recover_inv g wf _ Pre)), (recover_alloc_at g wf _ f Pre). exact H.
+  Qed.
+
+  (* exact characterisation of the recovered allocation state *)
+  Theorem crash_alloc_iff_inv s f : Inv g s -> f < ms_frames s ->
+    (N.testbit (o_alloc (abs g (lower_recover g (lower_of s)))) f = true <-> covered_by_held s f \/ touched g s f).
+  Proof.
+    intros I Hfr. pose proof (inv_lower_pre s I) as Pre.
+    rewrite (abs_alloc_testbit g wf _ (recover_inv g wf _ Pre)), (recover_alloc_at g wf _ f Pre). split.
+    - apply (alloc_owner s f I).
+    - intros [(F & K & Hin & Hf)|T]; [exact (held_alloc s F K f I Hin Hf)|exact (touched_alloc s f I Hfr T)].
   Qed.
 End Crash.
 
@@ -534,6 +564,15 @@ Proof.
   - apply (crash_keeps_free_inv g wf s f I).
 Qed.
 
+(* `touched` is exact: a managed frame is allocated after recovery iff it is held or touched *)
+Theorem crash_alloc_iff : forall g l held0 n sch f, wf_geom g -> LowerInv g l -> HeldInit g l held0 ->
+  let s := mrun g sch (boot l held0 n) in
+  f < ms_frames s ->
+  (N.testbit (o_alloc (abs g (lower_recover g (lower_of s)))) f = true <-> covered_by_held s f \/ touched g s f).
+Proof.
+  intros g l held0 n sch f wf HL HI s. apply (crash_alloc_iff_inv g wf s f (conc_inv g l held0 n sch wf HL HI)).
+Qed.
+
 Theorem crash_quiescent : forall g l held0 n sch, wf_geom g -> LowerInv g l -> HeldInit g l held0 ->
   let s := mrun g sch (boot l held0 n) in
   quiescent s ->
@@ -700,9 +739,9 @@ Example crash_stale_split :
   lost_b ex_stale 0 64 = true /\ lost_b ex_stale 200 1 = true /\
   forallb (fun b => spec_put_enabled gx8 (abs gx8 (recovered ex_stale)) (fst b) (snd b)) (ms_held ex_stale) = true /\
   crash_ok_b gx8 ex_stale = true /\
-  (* without the crash thread 1 rolls back and completes: solo, 12 more steps *)
-  ms_pool (mrun gx8 (run_n 1 12) ex_stale) = [TIdle (Some (Ok 0)); TIdle (Some (Ok 0))] /\
-  ms_ents (mrun gx8 (run_n 1 12) ex_stale) = [65; MARK].
+  (* without the crash thread 1 rolls back and completes: solo, 7 more steps *)
+  ms_pool (mrun gx8 (run_n 1 7) ex_stale) = [TIdle (Some (Ok 0)); TIdle (Some (Ok 0))] /\
+  ms_ents (mrun gx8 (run_n 1 7) ex_stale) = [65; MARK].
 Proof. vm_compute. repeat split. Qed.
 
 (* 4. a quiescent crash point: recovery is the identity *)
@@ -716,6 +755,7 @@ Proof. vm_compute. repeat split. Qed.
 Print Assumptions crash_safe.
 Print Assumptions crash_abs.
 Print Assumptions crash_free_stays_free.
+Print Assumptions crash_alloc_iff.
 Print Assumptions crash_quiescent.
 Print Assumptions crash_counts_agree.
 Print Assumptions crash_quiescent_counts.
